@@ -111,10 +111,6 @@ type Vaxis struct {
 	chSigKill        chan os.Signal
 	chCursorPos      chan [2]int
 	chQuit           chan bool
-	// chInputStop is closed when the input goroutine has to stop, chInputDone
-	// when it has returned
-	chInputStop chan struct{}
-	chInputDone chan struct{}
 	winSize          Resize
 	nextSize         Resize
 	chSizeDone       chan bool
@@ -147,6 +143,14 @@ type Vaxis struct {
 
 	mu     sync.Mutex
 	resize int32
+
+	// chInputStop is closed when the input goroutine has to stop, chInputDone
+	// when it has returned
+	chInputStop chan struct{}
+	chInputDone chan struct{}
+	// muQuery serialises the colour queries: a reply belongs to the one
+	// caller which is waiting for it
+	muQuery sync.Mutex
 }
 
 // New creates a new [Vaxis] instance. Calling New will query the underlying
@@ -1157,9 +1161,11 @@ func (vx *Vaxis) QueryColor(c Color) Color {
 	if len(p) != 1 {
 		return Color(0)
 	}
+	vx.muQuery.Lock()
 	drain(vx.chColor)
 	vx.tw.WriteStringLocked(tparm(osc4, p[0]))
 	resp := <-vx.chColor
+	vx.muQuery.Unlock()
 	var r, g, b int
 	prefix := fmt.Sprintf("4;%v;", p[0])
 	_, err := fmt.Sscanf(resp, prefix+"rgb:%x/%x/%x", &r, &g, &b)
@@ -1182,9 +1188,11 @@ func (vx *Vaxis) QueryForeground() Color {
 	if !vx.CanReportForegroundColor() {
 		return Color(0)
 	}
+	vx.muQuery.Lock()
 	drain(vx.chFg)
 	vx.tw.WriteStringLocked(osc10)
 	resp := <-vx.chFg
+	vx.muQuery.Unlock()
 	var r, g, b int
 	_, err := fmt.Sscanf(resp, "10;rgb:%x/%x/%x", &r, &g, &b)
 	if err != nil {
@@ -1203,9 +1211,11 @@ func (vx *Vaxis) QueryBackground() Color {
 	if !vx.CanReportBackgroundColor() {
 		return Color(0)
 	}
+	vx.muQuery.Lock()
 	drain(vx.chBg)
 	vx.tw.WriteStringLocked(osc11)
 	resp := <-vx.chBg
+	vx.muQuery.Unlock()
 	var r, g, b int
 	_, err := fmt.Sscanf(resp, "11;rgb:%x/%x/%x", &r, &g, &b)
 	if err != nil {
